@@ -3,7 +3,7 @@
 From Coq Require Import NArith List Bool String.
 Import ListNotations.
 From Y Require Import Prelude Re Resolve Decide Specs Tables.
-Open Scope N_scope.
+Local Open Scope N_scope. Local Open Scope string_scope.
 
 Definition other_tags : list ustring :=
   [tag_int; tag_null; tag_timestamp; tag_merge; tag_value; tag_yaml; tag_str].
